@@ -138,6 +138,9 @@ def write_tables(tables, d):
         f.write(bpch.tracerinfo_text(tables['tracers']))
     with open(os.path.join(d, 'diaginfo.dat'), 'w') as f:
         f.write(bpch.diaginfo_text(tables['cats']))
+    # modification times belong to the simulated clock (same-second rewrites)
+    seams.stamp_file(os.path.join(d, 'tracerinfo.dat'))
+    seams.stamp_file(os.path.join(d, 'diaginfo.dat'))
 
 
 def expected(spec, doc):
@@ -390,6 +393,7 @@ def apply(st, op):
         path = os.path.join(d, 'f%d.bpch' % op['fid'])
         with open(path, 'wb') as fh:
             fh.write(buf)
+        seams.stamp_file(path)
         write_tables(spec['tables'], d)
         st.files[op['fid']] = {'path': path, 'spec': spec, 'doc': doc, 'bytes': buf,
                                'exp': expected(spec, doc), 'dir': d}
